@@ -74,6 +74,7 @@ type World struct {
 	ctx     context.Context
 	cancel  context.CancelFunc
 	boots   int
+	images  int
 	closed  bool
 	Stats   map[string]int
 }
